@@ -55,6 +55,13 @@ def check(ctx: Ctx) -> None:
     # retained snapshots stay resolvable after a lost pointer: recovery picks the numerically latest version
     from .c10 import r11 as c10_r11
     c10_r11(ctx, "C09.R14")
+    # "for as long as it is retained": the removal sites keep exactly what the API says is retained (current snapshot, snapshots
+    # not strictly older than the cutoff) and repoint / filter the log consistently
+    from .c15 import r1 as c15_r1
+    ctx.shared(c15_r1, "C15.R1", "C09.R15", "a snapshot the caller asked to retain stays resolvable by id and by time")
+    # a raise after the commit point / an interrupt on the ambiguous path must not reach a deleting rollback of a committed snapshot
+    from .c04 import r4 as c04_r4
+    ctx.shared(c04_r4, "C04.R4", "C09.R16", "the files of a snapshot that IS committed are never rolled back")
 
 
 # ------------------------------------------------------------------ freshness
@@ -486,6 +493,8 @@ def r5(ctx: Ctx) -> None:
                 first_of_ties = True  # max()/min() return the FIRST of equal elements
                 if fn == "max" and seq.startswith("reversed("):
                     first_of_ties = False  # first of the reversed order = last committed
+                if isinstance(key, ast.Name) and key.id in f.module.consts:
+                    key = f.module.consts[key.id]  # `_commit_time = attrgetter("timestamp_ms")`
                 if first_of_ties and (key is None or "timestamp" in norm_text(key)):
                     problems.append(f"{fn}({seq[:40]}, key=...) returns the first of equal timestamps = the EARLIEST committed snapshot")
                 else:
